@@ -3,7 +3,7 @@
 From Coq Require Import ZArith List Bool.
 From Coq.Strings Require Import Byte.
 From CP Require Import Core.Bytes Core.Result Prim.Int Prim.Mpint Prim.Timestamp.
-From CP Require Import Lemmas.IntLemmas Lemmas.MpintLemmas Lemmas.TimestampLemmas Lemmas.C11Glue Lemmas.FlagTables.
+From CP Require Import Lemmas.IntLemmas Lemmas.MpintLemmas Lemmas.MpintNegLemmas Lemmas.TimestampLemmas Lemmas.C11Glue Lemmas.FlagTables.
 From CPGen Require Import Tables.
 Import ListNotations.
 Open Scope Z_scope.
@@ -64,6 +64,15 @@ Proof. exact mpint_ssh_canonical. Qed.
 Theorem C11_mpint_ssh_roundtrip : forall z b s, 0 <= z -> zlen (ssh_payload z) < 4294967296 ->
   compose_ssh_mpint z = Ok b -> parse_ssh_mpint (b ++ s) 0 = Ok (z, zlen b).
 Proof. exact parse_compose_ssh_mpint. Qed.
+
+(* ... and for every negative integer: the image is the two's complement in bit_length/8 + 1 bytes *)
+Theorem C11_mpint_ssh_negative_image : forall z, z < 0 -> neg_width z < 4294967296 ->
+  compose_ssh_mpint z = Ok (be_enc 4 (neg_width z) ++ be_enc (Z.to_nat (neg_width z)) (256 ^ neg_width z + z)).
+Proof. exact compose_ssh_mpint_neg. Qed.
+
+Theorem C11_mpint_ssh_negative_roundtrip : forall z b s, z < 0 -> neg_width z < 4294967296 ->
+  compose_ssh_mpint z = Ok b -> parse_ssh_mpint (b ++ s) 0 = Ok (z, zlen b).
+Proof. exact parse_compose_ssh_mpint_neg. Qed.
 
 (* timestamps: the instant survives compose -> parse (seconds: 4 or 8 bytes; milliseconds: 8 bytes; sentinel) *)
 Theorem C11_timestamp_seconds : forall w s b p sfx, In w [4; 8] -> 0 <= s <= dt_max -> s < 256 ^ w -> s <> 2 ^ (8 * w) - 1 ->
